@@ -134,12 +134,14 @@ def closeEp (s : St) (e : Nat) : St :=
   if (s.eps e).closed then s
   else setEp (releaseDrain (releaseCs s e) e) e (closedRecord (s.eps e))
 
-/-- `retire()`: mark dead, leave the pool (only if the pool still maps the key to this endpoint), close -/
-def retire (s : St) (e : Nat) : St :=
-  let E := s.eps e
-  let s1 := setEp s e { E with dead := true, expiresAt := 1 }
-  let s2 := if s1.pool E.key = some e then setPool s1 E.key none else s1
-  closeEp s2 e
+def markDead (s : St) (e : Nat) : St := setEp s e { (s.eps e) with dead := true, expiresAt := 1 }
+
+/-- `selfRemoveFromPool`: only if the pool still maps the key to this endpoint -/
+def selfRemove (s : St) (e : Nat) : St :=
+  if s.pool (s.eps e).key = some e then setPool s (s.eps e).key none else s
+
+/-- `retire()`: mark dead, leave the pool, close -/
+def retire (s : St) (e : Nat) : St := closeEp (selfRemove (markDead s e) e) e
 
 /-- `dialerEpochCounter(d)`: the current counter object of dialer d, made on first use -/
 def epochCounter (s : St) (d : Nat) : St × Nat :=
@@ -187,80 +189,101 @@ inductive GocResult
   | hit (e : Nat) | created (e : Nat) | errFailed | errDial
   deriving DecidableEq, Repr
 
-/-- `GetOrCreate(key, {NatTimeout, ConnStateOwner, DrainTracker})`; `sym` = the key is
-destination-bound; `d` = the dialer `GetDialOption` selects -/
-def getOrCreate (s : St) (k : Nat) (sym : Bool) (nat : Nat) (owner drain : Option Nat) (d : Nat)
-    (out : DialOutcome) : St × GocResult :=
-  let reuse? : Option Nat := match s.pool k with
-    | some e => if usable s (s.eps e) then some e else none
-    | none => none
-  let blocked : Bool := match s.pool k with
-    | some e => (s.eps e).failed && !(s.eps e).isExpired s.now
-    | none => false
-  if blocked then (s, .errFailed)
-  else match reuse? with
-  | some e =>
-    let s1 := setEp s e (updateNatTimeout (s.eps e) s.now nat)
-    (adopt s1 e owner drain, .hit e)
-  | none =>
-    -- stale entry (expired failure, dead, invalidated before traffic): drop and close it
-    let s1 := match s.pool k with
-      | some e => closeEp (setPool s k none) e
-      | none => s
-    match out with
-    | .failNoAlive => (s1, .errDial)
-    | .failGeneric =>
-      -- the dial was attempted and failed: negative-cache entry for 2 s
-      let F : Ep := { dummyEp with key := k, failed := true, dead := false, closed := false, csClosed := false,
-                                   expiresAt := s1.now + failureTtl }
-      let s2 := setPool (setEp { s1 with neps := s1.neps + 1, dials := s1.dials + 1 } s1.neps F) k (some s1.neps)
-      (s2, .errDial)
-    | .ok =>
-      let (s2, c) := epochCounter s1 d
-      let (s3, tk) := match drain with
-        | some dr => (setDrn s2 dr (Drain.step (s2.drn dr) .acquire), some (s2.drn dr).released.length)
-        | none => (s2, none)
-      let E : Ep := { key := k, failed := false, dead := false, closed := false, connCloses := 0,
-                      expiresAt := s3.now + nat, lastRefresh := s3.now, natTimeout := nat,
-                      hasSent := false, hasReply := false, wrote := false, symmetric := sym,
-                      dialer := d, gen := s3.ctrVal c, ctr := c, tuples := [], csClosed := false,
-                      owner := owner, drain := drain, ticket := tk }
-      let s4 := setPool (setEp { s3 with neps := s3.neps + 1, dials := s3.dials + 1 } s3.neps E) k (some s3.neps)
-      (s4, .created s3.neps)
-
-/-- `Get(key)` -/
-def get (s : St) (k : Nat) : Option Nat :=
+/-- the entry the pool would hand out for key k (`Get`, and the reuse branch of `GetOrCreate`) -/
+def reuseOf (s : St) (k : Nat) : Option Nat :=
   match s.pool k with
   | some e => if usable s (s.eps e) then some e else none
   | none => none
 
+/-- an unexpired negative-cache entry sits under key k -/
+def blockedBy (s : St) (k : Nat) : Bool :=
+  match s.pool k with
+  | some e => (s.eps e).failed && !(s.eps e).isExpired s.now
+  | none => false
+
+/-- stale entry (expired failure, dead, invalidated before traffic): drop and close it -/
+def dropStale (s : St) (k : Nat) : St :=
+  match s.pool k with
+  | some e => closeEp (setPool s k none) e
+  | none => s
+
+/-- a new endpoint object is published under its key (one transport dial was attempted) -/
+def allocEp (s : St) (E : Ep) : St :=
+  setPool (setEp { s with neps := s.neps + 1, dials := s.dials + 1 } s.neps E) E.key (some s.neps)
+
+/-- `cacheFailureLocked`: negative-cache entry for 2 s -/
+def failureEntry (k now : Nat) : Ep :=
+  { dummyEp with key := k, failed := true, dead := false, closed := false, csClosed := false,
+                 expiresAt := now + failureTtl }
+
+/-- `DrainTracker.Acquire()` for a new endpoint -/
+def acquireTicket (s : St) (drain : Option Nat) : St × Option Nat :=
+  match drain with
+  | some dr => (setDrn s dr (Drain.step (s.drn dr) .acquire), some (s.drn dr).released.length)
+  | none => (s, none)
+
+def freshEp (k : Nat) (sym : Bool) (nat now : Nat) (owner drain : Option Nat) (d gen c : Nat)
+    (tk : Option Nat) : Ep :=
+  { key := k, failed := false, dead := false, closed := false, connCloses := 0,
+    expiresAt := now + nat, lastRefresh := now, natTimeout := nat,
+    hasSent := false, hasReply := false, wrote := false, symmetric := sym,
+    dialer := d, gen := gen, ctr := c, tuples := [], csClosed := false,
+    owner := owner, drain := drain, ticket := tk }
+
+/-- the state in which the new endpoint record is built: stale entry dropped, epoch counter of
+the dialer present, drain ticket taken -/
+def prepCreate (s : St) (k : Nat) (drain : Option Nat) (d : Nat) : St :=
+  (acquireTicket (epochCounter (dropStale s k) d).1 drain).1
+
+/-- `GetOrCreate(key, {NatTimeout, ConnStateOwner, DrainTracker})`; `sym` = the key is
+destination-bound; `d` = the dialer `GetDialOption` selects -/
+def getOrCreate (s : St) (k : Nat) (sym : Bool) (nat : Nat) (owner drain : Option Nat) (d : Nat)
+    (out : DialOutcome) : St × GocResult :=
+  if blockedBy s k then (s, .errFailed)
+  else match reuseOf s k with
+  | some e => (adopt (setEp s e (updateNatTimeout (s.eps e) s.now nat)) e owner drain, .hit e)
+  | none =>
+    match out with
+    | .failNoAlive => (dropStale s k, .errDial)
+    | .failGeneric => (allocEp (dropStale s k) (failureEntry k (dropStale s k).now), .errDial)
+    | .ok =>
+      (allocEp (prepCreate s k drain d)
+        (freshEp k sym nat (prepCreate s k drain d).now owner drain d
+          ((epochCounter (dropStale s k) d).1.ctrVal (epochCounter (dropStale s k) d).2)
+          (epochCounter (dropStale s k) d).2
+          (acquireTicket (epochCounter (dropStale s k) d).1 drain).2),
+       .created (prepCreate s k drain d).neps)
+
+/-- `Get(key)` -/
+def get (s : St) (k : Nat) : Option Nat := reuseOf s k
+
 inductive WriteOutcome | ok | err | short
   deriving DecidableEq, Repr
 
+/-- the record after the bookkeeping `WriteTo` does before touching the transport -/
+def preWrite (E : Ep) (now : Nat) : Ep :=
+  refreshTtl { E with wrote := if E.hasReply then E.wrote else true } now
+
 /-- `WriteTo`; returns whether the call succeeded -/
 def writeTo (s : St) (e : Nat) (out : WriteOutcome) : St × Bool :=
-  let E := s.eps e
-  if E.dead then (s, false)
-  else
-    let E1 := refreshTtl { E with wrote := if E.hasReply then E.wrote else true } s.now
-    let s1 := setEp s e E1
-    match out with
-    | .err => (retire s1 e, false)
-    | .ok => (setEp s1 e { E1 with hasSent := true }, true)
-    | .short => (retire (setEp s1 e { E1 with hasSent := true }) e, false)
+  if (s.eps e).dead then (s, false)
+  else match out with
+    | .err => (retire (setEp s e (preWrite (s.eps e) s.now)) e, false)
+    | .ok => (setEp s e { (preWrite (s.eps e) s.now) with hasSent := true }, true)
+    | .short => (retire (setEp s e { (preWrite (s.eps e) s.now) with hasSent := true }) e, false)
+
+/-- `markReplied` / `RefreshTtlWithTime` on an accepted reply -/
+def onReply (E : Ep) (now : Nat) : Ep :=
+  if !E.hasReply then { E with hasReply := true, wrote := false, lastRefresh := now, expiresAt := now + E.natTimeout }
+  else refreshTtl E now
 
 /-- the transport delivers a reply from the peer the client wrote to; `handlerOk` = the reply
 handler (reinjection to the client) succeeds -/
 def reply (s : St) (e : Nat) (handlerOk : Bool) : St :=
-  let E := s.eps e
-  if E.closed then s                      -- the read loop has ended with the conn
-  else if !E.hasReply && !(E.wrote || E.symmetric) then s   -- dropped: unmatched initial reply
-  else
-    let E1 := if !E.hasReply then { E with hasReply := true, wrote := false, lastRefresh := s.now,
-                                             expiresAt := s.now + E.natTimeout }
-              else refreshTtl E s.now
-    let s1 := setEp s e E1
-    if handlerOk then s1 else retire s1 e
+  if (s.eps e).closed then s                      -- the read loop has ended with the conn
+  else if !(s.eps e).hasReply && !((s.eps e).wrote || (s.eps e).symmetric) then s   -- unmatched initial reply: dropped
+  else if handlerOk then setEp s e (onReply (s.eps e) s.now)
+  else retire (setEp s e (onReply (s.eps e) s.now)) e
 
 /-- the transport's `ReadFrom` fails hard (not a normal close) -/
 def readError (s : St) (e : Nat) : St :=
@@ -274,52 +297,59 @@ def remove (s : St) (k e : Nat) : St :=
 def pooled (s : St) (nkeys : Nat) : List (Nat × Nat) :=
   (List.range nkeys).filterMap fun k => (s.pool k).map fun e => (k, e)
 
-/-- one janitor pass at tick time `t` -/
-def janitor (nkeys : Nat) (s : St) (t : Nat) : St :=
-  (pooled s nkeys).foldl (fun s ke =>
-    let E := s.eps ke.2
-    if E.isExpired t || (!genCurrent s E && !E.survives) then closeEp (setPool s ke.1 none) ke.2 else s) s
+/-- the janitor's verdict on one entry at tick time t -/
+def janitorOne (t : Nat) (s : St) (ke : Nat × Nat) : St :=
+  if (s.eps ke.2).isExpired t || (!genCurrent s (s.eps ke.2) && !(s.eps ke.2).survives)
+  then closeEp (setPool s ke.1 none) ke.2 else s
 
-/-- `time.Sleep(dt)`: the janitor runs at every tick it crosses -/
+/-- one janitor pass at tick time `t` -/
+def janitor (nkeys : Nat) (s : St) (t : Nat) : St := (pooled s nkeys).foldl (janitorOne t) s
+
+def tickJanitor (nkeys : Nat) (s : St) : St :=
+  { (janitor nkeys { s with now := s.nextJanitor } s.nextJanitor) with
+    nextJanitor := s.nextJanitor + janitorInterval }
+
+/-- the janitor runs at every tick up to `target` -/
+def runJanitors (nkeys : Nat) (target : Nat) : Nat → St → St
+  | 0, s => s
+  | fuel + 1, s => if s.nextJanitor ≤ target then runJanitors nkeys target fuel (tickJanitor nkeys s) else s
+
+/-- `time.Sleep(dt)` -/
 def advance (nkeys : Nat) (fuel : Nat) (s : St) (dt : Nat) : St :=
-  let target := s.now + dt
-  let rec go (fuel : Nat) (s : St) : St :=
-    match fuel with
-    | 0 => { s with now := target }
-    | fuel + 1 =>
-      if s.nextJanitor ≤ target then
-        go fuel { (janitor nkeys { s with now := s.nextJanitor } s.nextJanitor) with
-                  nextJanitor := s.nextJanitor + janitorInterval }
-      else { s with now := target }
-  go fuel s
+  { (runJanitors nkeys (s.now + dt) fuel s) with now := s.now + dt }
+
+def bumpEpoch (s : St) (c : Nat) : St :=
+  { s with ctrVal := fun i => if i = c then s.ctrVal c + 1 else s.ctrVal i }
+
+/-- the dialer's bucket: endpoints registered and not yet closed, that did not carry traffic -/
+def victims (s : St) (d : Nat) : List Nat :=
+  (List.range s.neps).filter fun e =>
+    !(s.eps e).failed && !(s.eps e).closed && (s.eps e).dialer == d && !(s.eps e).survives
 
 /-- `InvalidateDialerNetworkType(d)`; returns the number of endpoints retired -/
 def invalidate (s : St) (d : Nat) : St × Nat :=
-  let (s1, c) := epochCounter s d
-  let s2 := { s1 with ctrVal := fun i => if i = c then s1.ctrVal c + 1 else s1.ctrVal i }
-  -- the dialer's bucket: endpoints registered and not yet closed
-  let victims := (List.range s2.neps).filter fun e =>
-    let E := s2.eps e
-    !E.failed && !E.closed && E.dialer == d && !E.survives
-  (victims.foldl retire s2, victims.length)
+  ((victims (bumpEpoch (epochCounter s d).1 (epochCounter s d).2) d).foldl retire
+      (bumpEpoch (epochCounter s d).1 (epochCounter s d).2),
+   (victims (bumpEpoch (epochCounter s d).1 (epochCounter s d).2) d).length)
+
+def resetOne (s : St) (ke : Nat × Nat) : St := closeEp (setPool s ke.1 none) ke.2
 
 /-- `Reset()` -/
 def reset (nkeys : Nat) (s : St) : St :=
-  let s1 := (pooled s nkeys).foldl (fun s ke => closeEp (setPool s ke.1 none) ke.2) s
-  { s1 with curCtr := fun _ => none }
+  { ((pooled s nkeys).foldl resetOne s) with curCtr := fun _ => none }
+
+def newTupleKeys (E : Ep) (j : Nat) : List Nat := [2 * j, 2 * j + 1].filter fun k => !E.tuples.contains k
 
 /-- `TrackUdpConnStateTuplePair`: pair `j` stands for the two tuples `2j`, `2j+1` -/
 def track (s : St) (e : Nat) (j : Nat) : St :=
-  let E := s.eps e
-  if E.csClosed then s
-  else match E.owner with
+  if (s.eps e).csClosed then s
+  else match (s.eps e).owner with
     | none => s
     | some o =>
-      let newKeys := [2 * j, 2 * j + 1].filter fun k => !E.tuples.contains k
-      if newKeys = [] then s
+      if newTupleKeys (s.eps e) j = [] then s
       else
-        let t := newKeys.foldl (fun t k => (Tracker.step t (.retain k)).1) (s.trk o)
-        setTrk (setEp s e { E with tuples := E.tuples ++ newKeys }) o t
+        setTrk (setEp s e { (s.eps e) with tuples := (s.eps e).tuples ++ newTupleKeys (s.eps e) j }) o
+          ((newTupleKeys (s.eps e) j).foldl (fun t k => (Tracker.step t (.retain k)).1) (s.trk o))
 
 /-! ### histories -/
 
